@@ -8,6 +8,7 @@ import Nlmodel.Proofs.Lemmas.RoundTrip
 import Nlmodel.Proofs.Lemmas.FloatText
 import Nlmodel.Proofs.Lemmas.ParsedFloats
 import Nlmodel.Proofs.Lemmas.ParseRange
+import Nlmodel.Proofs.Lemmas.C07ExtraComma
 namespace Nl
 namespace C07
 
@@ -184,6 +185,70 @@ theorem C07_same_tree_iff_same_print (cc : CharClass) (src1 src2 : Text) (a1 a2 
     (h1 : parse cc src1 = .ok a1) (h2 : parse cc src2 = .ok a2) (f1 : a1.AllFinF) (f2 : a2.AllFinF) :
     a1 = a2 ↔ printProgram a1 = printProgram a2 :=
   PR.same_tree_iff_same_print cc src1 src2 a1 a2 h1 h2 f1 f2
+
+/-! ### the remaining clauses of the property as explicit theorems (session 7, `Lemmas/C07Extra*.lean`)
+
+The round-trip theorems above are about the CANONICAL print (always `;` after a statement, `,` after an element, no redundant
+parenthesis, `a = a + (e)` and nested `anders { als .. }` spelled out).  The property also names the other spellings. -/
+
+open C07X in
+/-- `a OP= e` MEANS `a = a OP (e)`: between any two printed blocks, the statement spelled `a OP = e;` (the lexer has no `+=` token:
+    the parser takes an operator directly followed by `=`, for all 13 binary operators) parses to `assign a (infix a OP e)`, and the
+    whole program parses exactly as with the explicit spelling `a = a OP (e);` -/
+theorem C07_compound_assignment_desugars (b1 b2 : Block) (h1 : RTF.WB b1) (h2 : RTF.WB b2) (a : Text) (op : Op) (hop : RT.isBin op) (e : Expr) (he : RTF.WE e) :
+    parseTokens (printStmts b1 ++ ((compoundToks a op e ++ [.semi]) ++ printStmts b2))
+      = .ok (b1.append (.cons (.expr (compoundTree a op e)) b2)) ∧
+    parseTokens (printStmts b1 ++ ((compoundToks a op e ++ [.semi]) ++ printStmts b2))
+      = parseTokens (printStmts b1 ++ ((explicitToks a op e ++ [.semi]) ++ printStmts b2)) :=
+  X1_program b1 b2 h1 h2 a op hop e he
+
+open C07X in
+/-- `anders als` chains NEST TO THE RIGHT, for chains of any length: `als c {t} anders als c1 {t1} ... anders {o}` as the last
+    statement of a program parses to `ifE c t (some [expr (ifE c1 t1 (some ...))])` (`chainTree`) -/
+theorem C07_else_if_chain_nests_right (b0 : Block) (h0 : RTF.WB b0) (o : OptBlock) (ho : RTF.WO o) (m : List (Expr × Block)) (c : Expr) (t : Block)
+    (hc : RTF.WE c) (ht : RTF.WB t) (hm : ∀ x ∈ m, RTF.WE x.1 ∧ RTF.WB x.2) :
+    parseTokens (printStmts b0 ++ chainToks c t m o) = .ok (b0.append (.cons (.expr (chainTree c t m o)) .nil)) :=
+  X2_program b0 h0 o ho m c t hc ht hm
+
+open C07X in
+/-- REDUNDANT PARENTHESES never create nodes: an expression statement wrapped in ANY number of parentheses, between any two printed
+    blocks, parses to the same program -/
+theorem C07_redundant_parentheses_statement (b1 b2 : Block) (h1 : RTF.WB b1) (h2 : RTF.WB b2) (e : Expr) (he : RTF.WE e) (n : Nat) :
+    parseTokens (printStmts b1 ++ ((parens n (printE e) ++ [.semi]) ++ printStmts b2)) = .ok (b1.append (.cons (.expr e) b2)) :=
+  X3_program b1 b2 h1 h2 e he n
+
+open C07X in
+/-- ... and around the OPERANDS of a binary operator: any number of parentheses around either operand (at least the ones the
+    canonical print needs) gives what the canonical print gives, in every context -/
+theorem C07_redundant_parentheses_operands (l : Expr) (op : Op) (r : Expr) (hop : RT.isBin op) (hfl : isFunc l = false) (hl : RTF.WE l) (hr : RTF.WE r)
+    (nl nr : Nat) (hnl : nl = 0 → ¬ level l < docLevel op) (hnr : nr = 0 → ¬ level r ≤ docLevel op)
+    (p : Nat) (rest : List Token) (R : Expr × List Token) (hctx : RTF.Ctx (.infix l op r) p rest)
+    (hR : ∃ f, parseLoop f p (.infix l op r) rest = .ok R) :
+    ∃ f, parseExpr f p (parens nl (printE l) ++ opToken op :: (parens nr (printE r) ++ rest)) = .ok R ∧
+         parseExpr f p (printE (.infix l op r) ++ rest) = .ok R :=
+  X3_infix_operands_same l op r hop hfl hl hr nl nr hnl hnr p rest R hctx hR
+
+open C07X in
+/-- OPTIONAL SEMICOLONS: a program printed with any subset of its `;` left out — provided every omitted `;` stands before a token
+    that cannot continue an expression (`sepFree`: not `(`, `[`, `-`, an operator, `anders`) — parses to the same tree as the
+    canonical print; the `;` after the last statement is always optional -/
+theorem C07_optional_semicolons (b : Block) (hb : RTF.WB b) (ks : List Bool) (hok : SeqOK b ks []) :
+    parseTokens (printSeq b ks []) = .ok b ∧ parseTokens (printSeq b ks []) = parseTokens (printProgram b) :=
+  X4_program b hb ks hok
+
+/-- the condition is needed: `a; (b);` is two statements while `a (b);` is a call (likewise `[0]`: index, `-b`: subtraction) -/
+theorem C07_semicolon_condition_needed :
+    parseTokens [.ident ['a'], .semi, .lparen, .ident ['b'], .rparen, .semi]
+      = .ok (.cons (.expr (.ident ['a'])) (.cons (.expr (.ident ['b'])) .nil)) ∧
+    parseTokens [.ident ['a'], .lparen, .ident ['b'], .rparen, .semi]
+      = .ok (.cons (.expr (.call (.ident ['a']) (.cons (.ident ['b']) .nil))) .nil) :=
+  ⟨C07X.X4_condition_needed.1, C07X.X4_condition_needed.2.1⟩
+
+/-- every statement above is about TOKENS; rendered with any layout (blanks, newlines, comments between the tokens) the text parses
+    to what the tokens parse to -/
+theorem C07_layout_of_any_token_list (cc : CharClass) (hcc : LR.CCWF cc) (ts : List Token) (hw : ∀ t ∈ ts, LR.WFTok cc t) (ks : List Nat) :
+    parse cc (render ts ks) = parseTokens ts :=
+  C07X.parse_render cc hcc ts hw ks
 
 end C07
 end Nl
